@@ -25,8 +25,8 @@ type stdCodec struct {
 }
 
 var stdCodecs = []stdCodec{
-	{"gif", 'I', "decoder", []string{"pjw-thumbnail.gif", "hippopotamus.regular.gif", "animated-red-blue.gif", "hippopotamus.interlaced.truncated.gif"}},
-	{"png", 'I', "decoder", []string{"pjw-thumbnail.png", "hippopotamus.regular.png", "animated-red-blue.apng", "red-blue-gradient.gamma2dot2.png", "red-blue-gradient.dcip3d65-no-chrm-no-gama.png", "hippopotamus.regular.truncated.png"}},
+	{"gif", 'I', "decoder", []string{"pjw-thumbnail.gif", "hippopotamus.regular.gif", "animated-red-blue.gif", "hippopotamus.interlaced.truncated.gif", "artificial-gif/metadata-full.gif", "artificial-gif/metadata-empty.gif", "artificial-gif/no-frames.gif", "artificial-gif/multiple-loop-counts.gif"}},
+	{"png", 'I', "decoder", []string{"pjw-thumbnail.png", "hippopotamus.regular.png", "animated-red-blue.apng", "red-blue-gradient.gamma2dot2.png", "red-blue-gradient.dcip3d65-no-chrm-no-gama.png", "hippopotamus.regular.truncated.png", "artificial-png/exif.png", "artificial-png/key-value-pairs.png", "artificial-png/apng-skip-idat.png"}},
 	{"bmp", 'I', "decoder", []string{"pjw-thumbnail.bmp", "hippopotamus.bmp"}},
 	{"wbmp", 'I', "decoder", []string{"muybridge-frame-000.wbmp"}},
 	{"nie", 'I', "decoder", []string{"crude-flag.nie", "animated-red-blue.nia", "crude-flag.nia"}},
